@@ -13,7 +13,7 @@ import (
 // single-sector rhp2.VerifyAppendProof ------------------------------------------------
 
 func runAppend(b *harness.B, share, shares int, light bool) {
-	maxN, maxK := b.Pick(140, 300), b.Pick(4, 8)
+	maxN, maxK := b.Pick(300, 1024), 8
 	if light {
 		maxN, maxK = 40, 2
 	}
@@ -37,7 +37,7 @@ func runAppend(b *harness.B, share, shares int, light bool) {
 	for k := 9; k <= 16; k++ {
 		ns = append(ns, 1<<k-1, 1<<k, 1<<k+1)
 	}
-	for k := 0; k < b.Pick(30, 300); k++ {
+	for k := 0; k < b.Pick(60, 1200); k++ {
 		ns = append(ns, 301+b.Rng.IntN(1<<16))
 	}
 	if light {
